@@ -7,7 +7,7 @@ use proptest::prelude::*;
 use serde::{Deserialize, Serialize};
 use std::cell::RefCell;
 use std::collections::BTreeMap;
-use vkit::{enum_sub, prop_sub, vensure, vensure_eq, vfail, Check, Ctx, Probe, Sub, Tier};
+use vkit::{enum_sub, prop_sub, vensure, vensure_eq, vfail, Check, Ctx, Probe, Sub};
 use vmodel::universe::*;
 use warp_core::echo_verif::{RawCandidate, SchedProbe};
 use warp_core::{AttachmentKey, Footprint, SchedulerKind, TickReceipt, TickReceiptDisposition, TickReceiptEntry};
